@@ -17,7 +17,8 @@ fn convert_wildcards_to_pattern(s: &str, many: char, one: char) -> String {
         }
     }
 
-    format!("^(?i){}$", pattern)
+    // (`s`: a wildcard also stands for a line feed, which a file name may contain)
+    format!("^(?is){}$", pattern)
 }
 
 pub fn convert_glob_to_pattern(s: &str) -> String {
